@@ -142,11 +142,12 @@ pub struct PrngSource<'a> {
     last_offer: Option<Offer>,
     reused: bool,
     max_ops: usize,
+    peeks_left: usize,
 }
 
 impl<'a> PrngSource<'a> {
     pub fn new(rng: &'a mut Rng, profile: Profile, hot_cuts: Vec<usize>) -> PrngSource<'a> {
-        PrngSource { rng, profile, hot_cuts, rec: Vec::new(), stall_left: 0, last_offer: None, reused: false, max_ops: 20_000 }
+        PrngSource { rng, profile, hot_cuts, rec: Vec::new(), stall_left: 0, last_offer: None, reused: false, max_ops: 20_000, peeks_left: 6 }
     }
 
     fn draw_deliver(&mut self, v: &View) -> usize {
@@ -270,7 +271,7 @@ impl<'a> OpSource for PrngSource<'a> {
                 } else {
                     0
                 };
-                let w_peek = if self.profile.peek { 3 } else { 0 };
+                let w_peek = if self.profile.peek && self.peeks_left > 0 { 3 } else { 0 };
                 match self.rng.weighted(&[w_deliver, w_eof, w_call, w_peek]) {
                     0 => Op::Deliver(self.draw_deliver(v)),
                     1 => Op::Eof,
@@ -282,7 +283,10 @@ impl<'a> OpSource for PrngSource<'a> {
                         self.last_offer = Some(o.clone());
                         Op::Call(o)
                     }
-                    _ => Op::Peek(self.rng.below(8) as u8),
+                    _ => {
+                        self.peeks_left -= 1;
+                        Op::Peek(self.rng.below(8) as u8)
+                    }
                 }
             }
         };
